@@ -7,7 +7,7 @@ import (
 	"go/types"
 	"reflect"
 	"strings"
-	
+
 	"golang.org/x/tools/go/ssa"
 )
 
@@ -43,6 +43,10 @@ func (e *Engine) rtypeMarker() types.Type {
 }
 
 func reflectIntrinsicFor(name string) intrinsicFn {
+	// internal/reflectlite (sort.Slice, errors): the same model under the reflect names
+	if strings.Contains(name, "internal/reflectlite.") {
+		name = strings.Replace(name, "internal/reflectlite.", "reflect.", 1)
+	}
 	if !strings.HasPrefix(name, "reflect.") && !strings.HasPrefix(name, "(reflect.") && !strings.HasPrefix(name, "(*reflect.") {
 		return nil
 	}
@@ -58,7 +62,6 @@ func reflectIntrinsicFor(name string) intrinsicFn {
 func (e *Engine) reflectNamed(name string) types.Type {
 	return e.prog.ImportedPackage("reflect").Pkg.Scope().Lookup(name).Type()
 }
-
 
 func (e *Engine) rvGet(r RV) Val {
 	if r.addr != nil {
@@ -124,7 +127,6 @@ func kindOf(t types.Type) reflect.Kind {
 	return reflect.Invalid
 }
 
-
 func (e *Engine) structField(st *types.Struct, i int) Val {
 	sf := e.reflectNamed("StructField").Underlying().(*types.Struct)
 	a := Agg{f: make([]Val, sf.NumFields())}
@@ -157,7 +159,6 @@ func (e *Engine) structField(st *types.Struct, i int) Val {
 	return a
 }
 
-
 func (e *Engine) reflectIntrinsic(name string, fn *ssa.Function, a []Val) (Val, bool) {
 	switch name {
 	case "reflect.TypeOf":
@@ -168,6 +169,21 @@ func (e *Engine) reflectIntrinsic(name string, fn *ssa.Function, a []Val) (Val, 
 			return RV{}, true
 		}
 		return RV{t: i.typ, v: i.v}, true
+	case "reflect.Swapper":
+		i := a[0].(Iface)
+		sl, ok := i.v.(Slice)
+		if i.typ == nil || !ok {
+			e.goPanic("reflect: call of Swapper on a non-slice")
+		}
+		return NativeFn(func(e *Engine, args []Val) Val {
+			x := e.boundedIndex(e.tf.Resize(args[0].(*Term), 64, true), sl.len, false, "Swapper index")
+			y := e.boundedIndex(e.tf.Resize(args[1].(*Term), 64, true), sl.len, false, "Swapper index")
+			cx, cy := sl.arr.kids[sl.off+x], sl.arr.kids[sl.off+y]
+			vx, vy := e.load(cx), e.load(cy)
+			e.store(cx, vy)
+			e.store(cy, vx)
+			return nil
+		}), true
 	case "reflect.PtrTo", "reflect.PointerTo":
 		return e.rtypeIface(types.NewPointer(a[0].(Iface).v.(RT).t)), true
 	case "reflect.SliceOf":
@@ -581,4 +597,3 @@ func (e *Engine) reflectTypeMethod(rt RT, m string, a []Val) Val {
 	e.unsupported("reflect.Type.%s on %v", m, t)
 	return nil
 }
-
